@@ -1366,7 +1366,9 @@ class Sim:
             # for that very unit object) nor to Unit * array (a label applied to data: the data's registry
             # comes first by construction, unit_object.py Unit.__mul__).
             left = next(n for n in w.nodes if n.id == nx)
-            syms = sorted(tokens(str(x.units.expr)) | tokens(str(y.units.expr)))
+            # (the symbols of the unit EXPRESSIONS, not a word regex over their text: "%" is a symbol too)
+            syms = sorted({str(t) for t in getattr(x.units.expr, "free_symbols", ())}
+                          | {str(t) for t in getattr(y.units.expr, "free_symbols", ())})
             unresolved = [t for t in syms if t not in left.model and rw.derive(t, left.model) is None]
             if not unresolved:
                 self.violate("cross-registry", ["C13"],
